@@ -300,6 +300,33 @@ def run(ck):
                 ndec += 1
                 if not (any(BT == x_ for x_ in (r_.get("refs") or [])) or guarded_by_body_timeout(g_, r_)):
                     body_ok = False
+    if ndec < 2:
+        # the verdict is computed by a predicate that is handed the two time-outs as arguments (a free function or a template): look at
+        # the function as written -- the push is guarded by the predicate's true result, and every non-false return of the predicate
+        # mentions the parameter that is bound to bodyTimeout_ at the call
+        raw = [g_ for g_ in prog.by_base.get(TI + "checkIdlePeers", []) if g_.blocks]
+        for cr in raw[:1]:
+            pushes_ = [e for e in cr.calls(lambda e: e.base_callee() == "std::vector::push_back" and "Peer" in ((e.get("recv") or {}).get("ty") or (e.get("recv") or {}).get("rootT") or ""))]
+            for e in pushes_:
+                for c_ in cr.events("call"):
+                    for g_ in prog.resolve_call(c_):
+                        if not g_.blocks or g_.id == cr.id or not any(cfg.edge_dominates(cr, bid, k_, e) for bid, k_ in lib.result_edges(cr, g_.base, True)):
+                            continue
+                        bound = {}
+                        for i_, a_ in enumerate(c_.get("args") or []):
+                            if i_ < len(g_.params):
+                                bound["v:" + g_.params[i_]["name"]] = a_
+                        bt_params = {pn for pn, a_ in bound.items() if strip_tmpl(a_.get("f") or "") == TI + "bodyTimeout_"}
+                        ht_params = {pn for pn, a_ in bound.items() if strip_tmpl(a_.get("f") or "") == TI + "headerTimeout_"}
+                        for r_ in g_.events("return"):
+                            if r_.get("const") is False:
+                                continue
+                            ndec += 1
+                            rr = set(r_.get("refs") or [])
+                            if not (rr & bt_params):
+                                body_ok = False
+                            if rr & ht_params:
+                                refs_all.add("f:" + TI + "headerTimeout_")
     ck.require(ndec >= 2, "idle decisions found: %d" % ndec)
     head_ok = any(HT == x_ for x_ in refs_all)
     ck.ob("C14-R4", "both-timeouts-tested", body_ok and head_ok, cip.loc, cip, "every phase tests bodyTimeout_ (%s); head phases test headerTimeout_ (%s)" % (body_ok, head_ok))
